@@ -37,6 +37,7 @@ func run(c *Ctx) {
 			ml.ScAttachAfterClose(hevc), ml.ScAttachDuringClose(hevc),
 			ml.ScAttachAfterEnd("replaced", false, hevc), ml.ScAttachAfterEnd("replaced", true, hevc),
 			ml.ScAttachAfterEnd("unregistered", false, hevc), ml.ScAttachAfterEnd("closed", true, hevc),
+			ml.ScEndOfReplacedStream("unregist", hevc), ml.ScEndOfReplacedStream("close", hevc),
 			ml.ScCounterRace(false, hevc), ml.ScCounterRace(true, hevc),
 			ml.ScCloseDuringJoin(false, hevc), ml.ScCloseDuringJoin(true, hevc),
 		} {
